@@ -272,12 +272,28 @@ func runC04(c *Ctx) {
 						bad = ""
 					}
 					derives := false
-					SliceBack(ReturnValue(ret, 0), func(v ssa.Value) bool {
-						if v == r.Val {
-							derives = true
-						}
-						return true
-					})
+					var back func(x ssa.Value, d int)
+					back = func(x ssa.Value, d int) {
+						SliceBack(x, func(v ssa.Value) bool {
+							if v == r.Val {
+								derives = true
+							}
+							// an element stored into the slice on the way (ids := make([]string, 1, n); ids[0] = id)
+							if _, isSl := v.Type().Underlying().(*types.Slice); isSl && d < 3 {
+								for _, u := range Refs(v) {
+									if ia, ok := u.(*ssa.IndexAddr); ok && ia.X == v {
+										for _, uu := range Refs(ia) {
+											if st, ok := uu.(*ssa.Store); ok && st.Addr == ssa.Value(ia) {
+												back(st.Val, d+1)
+											}
+										}
+									}
+								}
+							}
+							return true
+						})
+					}
+					back(ReturnValue(ret, 0), 0)
 					if !derives {
 						bad = "the return at " + p.Pos(ret.Pos()) + " after the receive does not carry the received ID"
 					}
